@@ -118,6 +118,66 @@ m("C02", "failed-not-final", FSM,
   "var ChannelFinalityStates = []fsm.StateKey{\n	datatransfer.Cancelled,\n	datatransfer.Completed,\n}",
   "C02.1", "Failed is not absorbing")
 
+# ---------------- C04
+RR = "impl/receiving_requests.go"
+MSG = "message/message1_1prime/message.go"
+m("C04", "rejected-still-creates", RR,
+  "	if err != nil || !result.Accepted {\n		return result, err\n	}\n\n	// create the channel",
+  "	if err != nil {\n		return result, err\n	}\n\n	// create the channel",
+  "C04.1", "a rejected (no error) new request still creates the channel", "calibration")
+m("C04", "accepted-ignores-error", MSG,
+  "		RequestAccepted:       validationErr == nil && validationResult.Accepted,",
+  "		RequestAccepted:       validationResult.Accepted,",
+  "C04.3", "reply's Accepted flag ignores the validator's error", "calibration")
+m("C04", "requestError-nil-for-reject", RR,
+  "	if !result.Accepted {\n		return datatransfer.ErrRejected\n	}\n	if stayPaused {",
+  "	if stayPaused {",
+  "C04.4", "rejection produces no error for the transport")
+m("C04", "pause-outranks-reject", RR,
+  "	if !result.Accepted {\n		return datatransfer.ErrRejected\n	}\n	if stayPaused {\n		return datatransfer.ErrPause\n	}",
+  "	if stayPaused {\n		return datatransfer.ErrPause\n	}\n	if !result.Accepted {\n		return datatransfer.ErrRejected\n	}",
+  "C04.4", "a rejected request with ForcePause keeps its transport channel (paused)", "seeded/C04a")
+m("C04", "selector-error-overwritten", RR,
+  "	stor, err := incoming.Selector()\n	if err != nil {\n		return datatransfer.ValidationResult{}, err\n	}\n\n	voucher, err",
+  "	stor, err := incoming.Selector()\n	voucher, err",
+  "C04.1", "missing-selector error overwritten before it is checked", "seeded/C04b")
+m("C04", "no-close-on-reject", "impl/receiver.go",
+  "	if receiveErr != nil {\n		_ = r.manager.transport.CloseChannel(ctx, chid)\n		return receiveErr\n	}",
+  "	if receiveErr != nil {\n		return receiveErr\n	}",
+  "C04.5", "rejected request leaves the transport channel open")
+m("C04", "wrong-datalimit-recorded", RR,
+  "		err := m.channels.SetDataLimit(chid, result.DataLimit)",
+  "		err := m.channels.SetDataLimit(chid, chst.DataLimit())",
+  "C04.8", "the validator's data limit is not recorded")
+m("C04", "push-validated-as-pull", RR,
+  "	if incoming.IsPull() {\n		validatorFunc = validator.ValidatePull\n	} else {\n		validatorFunc = validator.ValidatePush\n	}",
+  "	if !incoming.IsPull() {\n		validatorFunc = validator.ValidatePull\n	} else {\n		validatorFunc = validator.ValidatePush\n	}",
+  "C04.1", "push requests validated by the pull validator")
+m("C04", "restart-rejection-not-recorded", RR,
+  "	if !result.Accepted {\n		return stayPaused, result, m.recordRejectedValidationEvents(chid, result)\n	}\n\n	// record the restart events",
+  "	if !result.Accepted {\n		return stayPaused, result, nil\n	}\n\n	// record the restart events",
+  "C04.6", "rejected restart does not fail the channel")
+m("C04", "update-reject-keeps-transport", "impl/impl.go",
+  "	if resultErr != nil || !result.Accepted {\n		m.transport.CloseChannel(ctx, chst.ChannelID())\n		return resultErr\n	}",
+  "	if resultErr != nil {\n		m.transport.CloseChannel(ctx, chst.ChannelID())\n		return resultErr\n	}",
+  "C04.7", "rejecting validation update leaves the transport open")
+m("C04", "open-transport-unaccepted", "impl/receiver.go",
+  "		if (response.IsNew() || response.IsRestart()) && response.Accepted() && !incoming.IsPull() {",
+  "		if (response.IsNew() || response.IsRestart()) && !incoming.IsPull() {",
+  "C04.5", "transport channel opened for a push that was not accepted")
+m("C04", "restart-unchecked-processor", RR,
+  "	processor, ok := m.validatedTypes.Processor(chv.Type)\n	if !ok {\n		return datatransfer.ValidationResult{}, fmt.Errorf(\"unknown voucher type: %s\", chv.Type)\n	}",
+  "	processor, _ := m.validatedTypes.Processor(chv.Type)",
+  "C04.10", "restart with unregistered voucher type panics (defect D2)")
+m("C04", "update-nil-chst", "impl/impl.go",
+  "	if chst == nil {\n		// the channel could not be read or updated, so there is no transport state to update\n		return err\n	}\n",
+  "",
+  "C04.10", "validation update on unknown channel dereferences nil (defect D4)")
+m("C04", "gs-validates-rejected", GS,
+  "	if err != nil && err != datatransfer.ErrPause {\n		log.Infof(\"%s: terminating req_id=%d with error: %s\", chid, request.ID(), err.Error())\n		hookActions.TerminateWithError(err)\n		return\n	}",
+  "	if err != nil && err != datatransfer.ErrPause {\n		log.Infof(\"%s: terminating req_id=%d with error: %s\", chid, request.ID(), err.Error())\n		hookActions.TerminateWithError(err)\n	}",
+  "C04.9", "graphsync request validated although the manager rejected it")
+
 by = collections.defaultdict(list)
 for x in M:
     p = x.pop("prop")
